@@ -242,6 +242,7 @@ class Sched:
 class VQueue:
     def __init__(self, sched, maxsize=0):
         self._s = sched
+        self.maxsize = maxsize or 0
         self.items = collections.deque()
         self.queue = self.items          # queue.Queue keeps its items in a deque of this name; code that peeks finds them here
         self.unfinished = 0
@@ -249,6 +250,12 @@ class VQueue:
 
     def put(self, item, block=True, timeout=None):
         self._s.point('queue.put')
+        if self.maxsize > 0 and len(self.items) >= self.maxsize:
+            # a bounded queue: the producer waits for room, as queue.Queue does
+            if not block:
+                raise _queue.Full()
+            if not self._s.block(lambda: len(self.items) < self.maxsize, timeout, 'queue.put(full)'):
+                raise _queue.Full()
         self.items.append(item)
         self.unfinished += 1
 
